@@ -74,6 +74,7 @@ def replay(ctx, thorough):
             ("EnforceDirect", "enforce", False, 80)]
     if thorough:
         plan = [(n, m, lz, num * 15) for n, m, lz, num in plan + [("ShadowDirect", "shadow", False, 80)]]
+    runs, infos = [], {}
     for name, mode, lazy, num in plan:
         behs = ctx.tlc_behaviours("Ledger", "MC_Ledger.tla", "Sim_%s.cfg" % name, num=num, depth=70, timeout=900)
         uniq = {}
@@ -98,17 +99,23 @@ def replay(ctx, thorough):
         miss = [k for k in need if not kinds.get(k)]
         if miss:
             raise vf.MachineryError("ledger replay %s: no call with outcome %s among the behaviours (vacuous)" % (name, miss))
-        inp = {"mode": mode, "lazy": lazy, "caps": CAPS, "behaviours": list(uniq.values())}
-        res = ctx.go_driver("./c12", "TestLedgerReplay", inp, name="ledger_replay_" + name, timeout=900)
-        ctx.take_driver_result(res, "[ledger replay %s] " % name)
-        ctx.cov["replay"]["ledger_replay_" + name] = {
-            "tlc_behaviours": len(behs), "distinct_call_orders": len(uniq), "replayed": res["cases"],
-            "calls": res.get("counters", {}).get("calls", 0), "outcomes": kinds, "drift": res["drift"],
-            "drift_notes": res.get("drift_notes", []), "skipped": res.get("skipped", [])}
-        if res.get("skipped"):
-            raise vf.MachineryError("ledger replay %s skipped: %s" % (name, res["skipped"][:3]))
-        if res["cases"] != len(uniq) and not res.get("violations"):
-            raise vf.MachineryError("ledger replay %s ran %d of %d call orders" % (name, res["cases"], len(uniq)))
+        runs.append({"name": name, "mode": mode, "lazy": lazy, "caps": CAPS, "behaviours": list(uniq.values())})
+        infos[name] = {"tlc_behaviours": len(behs), "distinct_call_orders": len(uniq), "outcomes": kinds}
+    res = ctx.go_driver("./c12", "TestLedgerReplay", {"runs": runs}, name="ledger_replay", timeout=1800)
+    ctx.take_driver_result(res, "[ledger replay] ")
+    cnt = res.get("counters", {})
+    for name, info in infos.items():
+        info.update(replayed=cnt.get("cases_" + name, 0), calls=cnt.get("calls_" + name, 0))
+        ctx.cov["replay"]["ledger_replay_" + name] = info
+    ctx.cov["replay"]["ledger_replay"] = {"drift": res["drift"], "drift_notes": res.get("drift_notes", []),
+                                          "skipped": res.get("skipped", [])}
+    if res.get("skipped"):
+        raise vf.MachineryError("ledger replay skipped: %s" % res["skipped"][:3])
+    if not res.get("violations"):
+        for name, info in infos.items():
+            if info["replayed"] != info["distinct_call_orders"]:
+                raise vf.MachineryError("ledger replay %s ran %d of %d call orders" % (
+                    name, info["replayed"], info["distinct_call_orders"]))
 
 
 def stress(ctx, thorough):
@@ -116,37 +123,38 @@ def stress(ctx, thorough):
     if thorough:
         plan += [("EnforceDirect", "enforce", False), ("ShadowDirect", "shadow", False)]
     rounds = 12 if not thorough else 150
+    runs, traces = [], {}
+    for name, mode, lazy in plan:
+        traces[name] = os.path.join(ctx.scratch, "ledger_%s.ndjson" % name)
+        base = {"mode": mode, "lazy": lazy, "caps": CAPS}
+        # four goroutines with a recorded history, then many goroutines judged by the predicates only
+        runs.append(dict(base, name=name, rounds=rounds, procs=4, ops=8, traceOut=traces[name]))
+        runs.append(dict(base, name=name + "32", rounds=max(6, rounds // 4), procs=32, ops=40, traceOut=""))
+    res = ctx.go_driver("./c12", "TestLedgerStress", {"runs": runs}, name="ledger_stress", timeout=1800)
+    ctx.take_driver_result(res, "[ledger stress] ")
+    cnt = res.get("counters", {})
+    if res.get("skipped"):
+        raise vf.MachineryError("ledger stress could not run: %s" % res["skipped"][:3])
     ok_traces = 0
     tampered = False
     for name, mode, lazy in plan:
-        trace = os.path.join(ctx.scratch, "ledger_%s.ndjson" % name)
-        inp = {"mode": mode, "lazy": lazy, "caps": CAPS, "rounds": rounds, "procs": 4, "ops": 8, "traceOut": trace}
-        res = ctx.go_driver("./c12", "TestLedgerStress", inp, name="ledger_stress_" + name, timeout=900)
-        ctx.take_driver_result(res, "[ledger stress %s] " % name)
-        cnt = res.get("counters", {})
-        info = {"rounds": res["cases"], "calls": cnt.get("calls", 0), "overlapping_calls": cnt.get("overlapping_calls", 0),
-                "skipped": res.get("skipped", [])}
-        if not res.get("violations") and cnt.get("overlapping_calls", 0) < 5:
-            raise vf.MachineryError("ledger stress %s: the recorded histories contain no overlapping calls (vacuous)" % name)
-        ctx.cov["replay"]["ledger_stress_" + name] = info
-        if res.get("skipped"):
-            raise vf.MachineryError("ledger stress %s could not run: %s" % (name, res["skipped"][:3]))
         if res.get("violations"):
-            continue
-        # many goroutines, predicates only
-        big = dict(inp, rounds=max(6, rounds // 4), procs=32, ops=40, traceOut="")
-        resb = ctx.go_driver("./c12", "TestLedgerStress", big, name="ledger_big_" + name, timeout=900)
-        ctx.take_driver_result(resb, "[ledger stress32 %s] " % name)
-        info["big_rounds"] = resb["cases"]
-        info["big_calls"] = resb.get("counters", {}).get("calls", 0)
-        if resb.get("skipped"):
-            raise vf.MachineryError("ledger stress32 %s could not run: %s" % (name, resb["skipped"][:3]))
+            break
+        trace = traces[name]
+        info = {"rounds": cnt.get("rounds_" + name, 0), "calls": cnt.get("calls_" + name, 0),
+                "overlapping_calls": cnt.get("overlapping_calls_" + name, 0),
+                "rounds32": cnt.get("rounds_" + name + "32", 0), "calls32": cnt.get("calls_" + name + "32", 0)}
+        ctx.cov["replay"]["ledger_stress_" + name] = info
+        if info["rounds"] != rounds or info["rounds32"] == 0:
+            raise vf.MachineryError("ledger stress %s ran %d of %d rounds" % (name, info["rounds"], rounds))
+        if info["overlapping_calls"] < 5:
+            raise vf.MachineryError("ledger stress %s: the recorded histories contain no overlapping calls (vacuous)" % name)
         # code -> spec
         nlines = sum(1 for _ in open(trace))
         ok, r = ctx.tlc_trace("Ledger", "Trace_Ledger.tla", "Trace_%s.cfg" % name, trace, timeout=1500, deque=False)
         info["trace_lines"] = nlines
         if ok:
-            ok_traces += cnt.get("traces", 0)
+            ok_traces += cnt.get("traces_" + name, 0)
             info["trace_states"] = r.distinct
         elif r.violated and r.violated != "TraceAccepted":
             ctx.violation("ledger/trace/" + r.violated,
@@ -189,10 +197,9 @@ def stress(ctx, thorough):
 
 def model_check(ctx, thorough):
     quick = [("MC_EnforceDebit3.cfg", 4), ("MC_EnforceLocal2.cfg", 4), ("MC_EnforceLife2.cfg", 4),
-             ("MC_ShadowDebit3.cfg", 2), ("MC_ShadowLocal2.cfg", 2), ("MC_ShadowLife2.cfg", 4),
-             ("MC_OffDebit3.cfg", 2), ("MC_OffLife2.cfg", 2)]
+             ("MC_ShadowDebit3.cfg", 2), ("MC_ShadowLocal2.cfg", 2), ("MC_ShadowLife2.cfg", 4), ("MC_OffLife2.cfg", 2)]
     full = quick + [("MC_EnforceAll2.cfg", 6), ("MC_ShadowAll2.cfg", 6), ("MC_OffAll2.cfg", 4), ("MC_EnforceDirect2.cfg", 6),
-                    ("MC_ShadowDirect2.cfg", 6), ("MC_EnforceLife3.cfg", 8), ("MC_ShadowLife3.cfg", 8), ("MC_OffLife3.cfg", 4),
+                    ("MC_ShadowDirect2.cfg", 6), ("MC_EnforceLife3.cfg", 8), ("MC_ShadowLife3.cfg", 8), ("MC_OffLife3.cfg", 4), ("MC_OffDebit3.cfg", 2),
                     ("MC_EnforceDebit3x3.cfg", 6), ("MC_ShadowDebit3x3.cfg", 6)]
     # -coverage on two configs that together contain every action of the model
     cov = {"MC_EnforceLife2.cfg": {"ShadowAdd", "CheckLocal", "LocalEnter"},
@@ -223,8 +230,8 @@ def replay_core(ctx, path):
         idx = {"network": 0, "dnssec": 1, "mixed": 2}[rp["kinds"]]
         pad = (idx - ctx.seed) % 3
         filler = {"id": "pad", "ops": []}
-        inp = {"mode": rp["mode"], "lazy": rp["lazy"], "caps": rp["caps"],
-               "behaviours": [filler] * pad + [rp["behaviour_full"]]}
+        inp = {"runs": [{"name": "replay", "mode": rp["mode"], "lazy": rp["lazy"], "caps": rp["caps"],
+                         "behaviours": [filler] * pad + [rp["behaviour_full"]]}]}
         res = ctx.go_driver("./c12", "TestLedgerReplay", inp, name="replay_ledger", timeout=600)
     elif drv == "ledger-race":
         ctx.seed = int(rp.get("seed", ctx.seed))
@@ -232,8 +239,8 @@ def replay_core(ctx, path):
                             name="replay_race", timeout=900)
     elif drv == "ledger-stress":
         ctx.seed = int(rp.get("seed", ctx.seed))
-        inp = {"mode": rp["mode"], "lazy": rp["lazy"], "caps": rp["caps"], "rounds": int(rp.get("round", 0)) + 25,
-               "procs": 32, "ops": 40, "traceOut": ""}
+        inp = {"runs": [{"name": "replay", "mode": rp["mode"], "lazy": rp["lazy"], "caps": rp["caps"],
+                         "rounds": int(rp.get("round", 0)) + 25, "procs": 32, "ops": 40, "traceOut": ""}]}
         res = ctx.go_driver("./c12", "TestLedgerStress", inp, name="replay_stress", timeout=900)
     else:
         raise vf.MachineryError("replay file %s: unknown driver %r" % (path, drv))
